@@ -367,6 +367,41 @@ class AttestationScn(Scenario):
         await step(2, "verified")
 
 
+class SlowAttestationScn(AttestationScn):
+    """
+    The attesting application takes its time (its attestation_request_callback returns a future that completes seconds later - a
+    user clicking "allow"), while the requester repeats its request: several asynchronous handlers of one message type from one
+    sender are suspended at the attester at once.
+    """
+
+    name = "attest_slow"
+    expect_handlers = ("on_request_attestation",)
+
+    async def script(self, c, nodes, step=_nop) -> None:  # noqa: ANN001
+        from ipv8.attestation.wallet.primitives.structs import BonehPrivateKey
+        sk = BonehPrivateKey.unserialize(unhexlify(BONEH_SK))
+        await self.introduce(nodes)
+        await step(0, "introduced")
+        a, b = nodes[0], nodes[1]
+        delay = float(c.case.get("answer_delay", 2.0))
+        loop = asyncio.get_event_loop()
+
+        def slow(peer, name, md):  # noqa: ANN001, ANN202
+            fut = loop.create_future()
+            loop.call_later(delay, lambda: fut.done() or fut.set_result(b"2168897456"))
+            c.probe("attestation_callback_pending")
+            return fut
+        a.call(a.ov.set_attestation_request_callback, slow)
+        a.call(a.ov.set_attestation_request_complete_callback, lambda *args: None)
+        for k in range(int(c.case.get("repeats", 2))):
+            b.call(b.ov.request_attestation, _peer_of(b, a), f"MyAttribute{k % 2}", sk)
+            await asyncio.sleep(0.1)
+        await asyncio.sleep(0.3)
+        await step(1, "requests being handled")
+        await asyncio.sleep(delay + 3.0)
+        await step(2, "answered")
+
+
 def _peer_of(me: SimNode, other: SimNode):  # noqa: ANN202
     """The Peer object that ``me`` holds for ``other`` (falls back to a fresh Peer with the right address)."""
     from ipv8.peer import Peer
@@ -472,6 +507,7 @@ class MultiScn(Scenario):
 
 
 SCENARIOS["multi"] = MultiScn()
+SCENARIOS["attest_slow"] = SlowAttestationScn()
 
 
 # ------------------------------------------------------------------------------------------------ full ipv8_service.IPv8
@@ -494,6 +530,10 @@ class ServiceScn(Scenario):
             cfg = ConfigBuilder().finalize()
             cfg["logger"] = {"level": "CRITICAL"}
             cfg["keys"][0]["file"] = None
+            if c.case.get("walk_interval"):
+                # a tuning knob of the service: with an interval of at least one second per strategy the ticker spreads the
+                # strategies' steps over the interval, i.e. it suspends BETWEEN two strategies of one tick
+                cfg["walker_interval"] = float(c.case["walk_interval"])
             for o in cfg["overlays"]:
                 for bs in o["bootstrappers"]:
                     bs["init"] = {"ip_addresses": [("1.0.0.1", 8090)], "dns_addresses": [], "bootstrap_timeout": 30.0}
